@@ -4,10 +4,10 @@ from props import lexcommon
 
 LEVEL_NOTE = [
     "A1 str indexing / universal newlines of open(); A2 `re` semantics of the four numeric patterns (matchers are hand-specialised; pattern texts are re-generated and compared)",
-    "theorem C09.token_positions is about Model/Lexer.lean; the tie to lexer.py is the `lex` correspondence (exhaustive short strings + lexeme sequences) and the regenerated dictionaries",
+    "theorems C09.token_positions / tokens_ordered / diag_positions are about Model/Lexer.lean; the tie to lexer.py is the `lex` correspondence (exhaustive short strings + lexeme sequences) and the regenerated dictionaries",
 ]
 PARTIAL = [
-    "diagnostic highlight positions (C09_diag_positions of DESIGN §4.9) are not yet a theorem: they are compared with the model (correspondence) and BAD_LEXEME positions are proved in C10.bad_reported",
+    "theorem C09.diag_positions: the first highlight (the printed position) of EVERY lexical diagnostic is the visual position of a character of the file, for every source text; that it is the *offending* character of each code (the escaped character, the first bad digit, the suffix, ...) is fixed by the model's definitions, tied to lexer.py by the `lex` correspondence and, for escapes, checked by the independent oracle (escape-diagnostic-position); positions of diagnostics produced by rules are token positions (token_positions) as far as the rules are ported",
 ]
 
 
